@@ -75,10 +75,10 @@ Proof.
     destruct (last idx false); cbn [b2z].
     + rewrite zext_zext by lia.
       replace (Z.to_nat (k + 2 ^ Z.of_nat n * 1)) with (length fh + Z.to_nat k)%nat by (rewrite Hlf; lia).
-      rewrite Hins at 2. rewrite app_nth2_plus. f_equal. lia.
+      rewrite Hins at 2. rewrite app_nth2_plus. f_equal. unfold bits in *. lia.
     + rewrite zext_zext by lia.
       replace (k + 2 ^ Z.of_nat n * 0) with k by lia.
-      rewrite Hins at 2. rewrite app_nth1 by lia. f_equal. lia.
+      rewrite Hins at 2. rewrite app_nth1 by lia. f_equal. unfold bits in *. lia.
 Qed.
 
 Lemma nth_mux_pad n ins d k :
@@ -139,7 +139,7 @@ Proof.
     revert idx Hlen Hn. induction n as [|n IH]; intros idx Hlen Hn l Hl; [lia|].
     cbn [mux_rec]. rewrite Hl. rewrite Nat.eqb_refl. cbn [negb].
     destruct n as [|n']; [discriminate|].
-    rewrite pyslice_0_m1. rewrite Hl, half_pow2.
+    rewrite pyslice_0_m1. rewrite half_pow2.
     assert (Hl' : length (removelast idx) = S n') by (rewrite length_removelast; lia).
     pose proof (pow2_nat_pos (S n')) as Hp.
     assert (H1 : mux_rec (S n') (removelast idx) (firstn (2 ^ S n') l) <> None).
@@ -151,4 +151,151 @@ Proof.
     destruct (mux_rec (S n') (removelast idx) (firstn (2 ^ S n') l)); [|congruence].
     destruct (mux_rec (S n') (removelast idx) (skipn (2 ^ S n') l)); [|congruence].
     discriminate.
+Qed.
+
+(* ---------- demux ---------- *)
+Lemma nth_map_d {A B} (f : A -> B) l j d d' : f d = d' -> nth j (map f l) d' = f (nth j l d).
+Proof. intros <-. apply map_nth. Qed.
+
+Lemma demux_rec_spec : forall n sel, length sel = n -> (1 <= n)%nat ->
+  length (demux_rec n sel) = (2 ^ n)%nat /\
+  forall j, (j < 2 ^ n)%nat -> nth j (demux_rec n sel) false = (to_Z sel =? Z.of_nat j).
+Proof.
+  induction n as [|n IH]; intros sel Hlen Hn; [lia|].
+  destruct n as [|n'].
+  - destruct sel as [|b [|? ?]]; cbn in Hlen; try lia.
+    cbn [demux_rec nth]. split; [reflexivity|]. intros j Hj.
+    change (2 ^ 1)%nat with 2%nat in Hj.
+    destruct j as [|[|j]]; try lia; destruct b; reflexivity.
+  - set (n := S n') in *.
+    change (demux_rec (S n) sel) with
+      (map (fun w => andb (negb (last sel false)) w) (demux_rec n (pyslice sel None (Some (-1)))) ++
+       map (fun w => andb (last sel false) w) (demux_rec n (pyslice sel None (Some (-1))))).
+    rewrite pyslice_none_m1.
+    assert (Hl' : length (removelast sel) = n) by (rewrite length_removelast; lia).
+    destruct (IH (removelast sel) Hl' ltac:(lia)) as [Hlw Hw].
+    assert (Hne : sel <> []) by (intro; subst; cbn in Hlen; lia).
+    pose proof (to_Z_removelast sel Hne) as Hz. rewrite Hlen in Hz. replace (S n - 1)%nat with n in Hz by lia.
+    pose proof (to_Z_range (removelast sel)) as Hr. rewrite Hl' in Hr.
+    pose proof (pow2_nat_Z n) as Hp.
+    split.
+    + rewrite app_length, !map_length, Hlw. rewrite (Nat.pow_succ_r' 2 n). lia.
+    + intros j Hj. rewrite (Nat.pow_succ_r' 2 n) in Hj.
+      destruct (Nat.ltb j (2 ^ n)) eqn:E.
+      * apply Nat.ltb_lt in E. rewrite app_nth1 by (rewrite map_length; lia).
+        rewrite (nth_map_d _ _ _ false false) by apply andb_false_r.
+        rewrite Hw by lia. rewrite Hz. destruct (last sel false); cbn [b2z negb andb]; lia.
+      * apply Nat.ltb_ge in E. rewrite app_nth2 by (rewrite map_length; lia).
+        rewrite map_length, Hlw.
+        rewrite (nth_map_d _ _ _ false false) by apply andb_false_r.
+        rewrite Hw by lia. rewrite Hz. destruct (last sel false); cbn [b2z negb andb]; lia.
+Qed.
+
+(* demux is one-hot: output j is 1 exactly when the select value is j *)
+Theorem demux_one_hot : forall sel, (1 <= length sel)%nat ->
+  length (demux sel) = (2 ^ length sel)%nat /\
+  forall j, (j < 2 ^ length sel)%nat -> nth j (demux sel) false = (to_Z sel =? Z.of_nat j).
+Proof. intros sel H. apply demux_rec_spec; [reflexivity|exact H]. Qed.
+
+(* ---------- prioritized_mux ---------- *)
+(* index of the first high select, or the last index if none is high *)
+Fixpoint first_high (sels : list bool) : nat :=
+  match sels with
+  | [] => 0
+  | [_] => 0
+  | b :: r => if b then 0%nat else S (first_high r)
+  end.
+
+Lemma first_high_lt sels : sels <> [] -> (first_high sels < length sels)%nat.
+Proof.
+  induction sels as [|b [|c r] IH]; intros H; [congruence|cbn; lia|].
+  change (first_high (b :: c :: r)) with (if b then 0%nat else S (first_high (c :: r))).
+  destruct b; cbn [length]; [lia|]. specialize (IH ltac:(discriminate)). cbn [length] in IH. lia.
+Qed.
+
+Lemma first_high_app a b : a <> [] -> b <> [] ->
+  first_high (a ++ b) =
+  if existsb (fun x => x) a then first_high a else (length a + first_high b)%nat.
+Proof.
+  intros Ha Hb. induction a as [|x [|y r] IH]; [congruence| |].
+  - destruct b as [|z b]; [congruence|]. cbn [app existsb orb length].
+    change (first_high (x :: z :: b)) with (if x then 0%nat else S (first_high (z :: b))).
+    destruct x; reflexivity.
+  - change ((x :: y :: r) ++ b) with (x :: (y :: r) ++ b).
+    change (first_high (x :: (y :: r) ++ b)) with
+      (match (y :: r) ++ b with [] => 0%nat | _ => if x then 0%nat else S (first_high ((y :: r) ++ b)) end).
+    change (first_high (x :: y :: r)) with (if x then 0%nat else S (first_high (y :: r))).
+    cbn [app]. cbn [existsb]. destruct x; cbn [orb]; [reflexivity|].
+    change (y :: r ++ b) with ((y :: r) ++ b). rewrite IH by discriminate.
+    cbn [existsb]. destruct (y || existsb (fun x => x) r); cbn [length]; lia.
+Qed.
+
+Lemma pmux_rec_spec : forall fuel sels vals r,
+  (length vals < fuel)%nat -> pmux_rec fuel sels vals = Some r ->
+  length sels = length vals /\ vals <> [] /\
+  to_Z r = to_Z (nth (first_high sels) vals []) /\
+  length r = maxlen vals.
+Proof.
+  induction fuel as [|fuel IH]; intros sels vals r Hf H; [lia|].
+  cbn [pmux_rec] in H.
+  destruct (Nat.eqb (length sels) (length vals)) eqn:El; cbn [negb] in H; [|discriminate].
+  apply Nat.eqb_eq in El.
+  destruct vals as [|v0 [|v1 vr]]; [discriminate| |].
+  - injection H as <-. destruct sels as [|s0 [|? ?]]; cbn in El; try lia.
+    repeat split; try discriminate. cbn. lia.
+  - set (vals := v0 :: v1 :: vr) in *.
+    set (half := Nat.div (length vals) 2) in *.
+    assert (Hlen2 : (2 <= length vals)%nat) by (cbn; lia).
+    assert (Hh : (1 <= half /\ half < length vals)%nat).
+    { unfold half. split.
+      - apply Nat.div_le_lower_bound; lia.
+      - apply Nat.div_lt; lia. }
+    destruct (pmux_rec fuel (firstn half sels) (firstn half vals)) as [t|] eqn:Et; [|discriminate].
+    destruct (pmux_rec fuel (skipn half sels) (skipn half vals)) as [f|] eqn:Ef; [|discriminate].
+    injection H as <-.
+    apply IH in Et; [|rewrite firstn_length; lia].
+    apply IH in Ef; [|rewrite skipn_length; lia].
+    destruct Et as (_ & Htn & Htv & Htl). destruct Ef as (_ & Hfn & Hfv & Hfl).
+    split; [exact El|]. split; [discriminate|].
+    assert (Hs : sels = firstn half sels ++ skipn half sels) by (symmetry; apply firstn_skipn).
+    assert (Hv : vals = firstn half vals ++ skipn half vals) by (symmetry; apply firstn_skipn).
+    assert (Hsa : firstn half sels <> []).
+    { intro E. apply (f_equal (@length bool)) in E. rewrite firstn_length in E. cbn [length] in E. lia. }
+    assert (Hsb : skipn half sels <> []).
+    { intro E. apply (f_equal (@length bool)) in E. rewrite skipn_length in E. cbn [length] in E. lia. }
+    split.
+    + rewrite to_Z_select. rewrite Hs at 2. rewrite first_high_app by assumption.
+      destruct (existsb (fun b => b) (firstn half sels)).
+      * rewrite Htv. rewrite Hv at 2. rewrite app_nth1; [reflexivity|].
+        pose proof (first_high_lt _ Hsa) as L. rewrite !firstn_length in *. lia.
+      * rewrite Hfv. rewrite Hv at 2. rewrite firstn_length.
+        replace (Nat.min half (length sels)) with (length (firstn half vals)) by (rewrite firstn_length; lia).
+        rewrite app_nth2_plus. reflexivity.
+    + rewrite length_select. rewrite Htl, Hfl. rewrite Hv at 3. rewrite maxlen_app. lia.
+Qed.
+
+(* the value of the first wire whose select is high; the last value if none *)
+Theorem prioritized_mux_first_high : forall sels vals r,
+  prioritized_mux sels vals = Some r ->
+  length sels = length vals /\ vals <> [] /\
+  to_Z r = to_Z (nth (first_high sels) vals []) /\ length r = maxlen vals.
+Proof. intros sels vals r H. unfold prioritized_mux in H. eapply pmux_rec_spec; [|exact H]. lia. Qed.
+
+(* first_high is what its name says *)
+Lemma first_high_spec : forall sels, sels <> [] ->
+  let k := first_high sels in
+  (forall j, (j < k)%nat -> nth j sels false = false) /\
+  (nth k sels false = true \/ (k = length sels - 1)%nat /\ forall j, (j < length sels)%nat -> nth j sels false = false).
+Proof.
+  induction sels as [|b [|c r] IH]; intros H; [congruence| |].
+  - cbn. split; [intros; lia|]. destruct b; [left; reflexivity|right]. split; [reflexivity|].
+    intros [|j] Hj; [reflexivity|lia].
+  - change (first_high (b :: c :: r)) with (if b then 0%nat else S (first_high (c :: r))).
+    destruct b.
+    + cbn zeta. split; [intros; lia|left; reflexivity].
+    + specialize (IH ltac:(discriminate)). cbn zeta in IH |- *. destruct IH as [I1 I2]. split.
+      * intros [|j] Hj; [reflexivity|]. cbn [nth]. apply I1. lia.
+      * cbn [nth]. destruct I2 as [I2|[I2 I3]]; [left; exact I2|right]. split.
+        -- cbn [length] in *. lia.
+        -- intros [|j] Hj; [reflexivity|]. cbn [nth]. apply I3. cbn [length] in *. lia.
 Qed.
